@@ -323,6 +323,12 @@ def run(ctx):
     st = engine_check.standard_run(ctx, HIST_PROFILE, [M.mon_c05], hist_nontrivial, HIST_RULE,
                                    n_quick=120, n_thorough=2500, length=30)
     hist_cov = dict(ctx.coverage)
+    # read-then-commit batches: every kind of read (plain / wrapped Get, attributes, Locate, cryptographic use,
+    # refused operations) followed in the same batch by an item that commits, then plain reads and restarts
+    engine_check.standard_run(ctx, {"builtin_policies_only": True}, [M.mon_c05, M.mon_c08], hist_nontrivial, HIST_RULE,
+                              n_quick=32, n_thorough=600, length=16, builder="scen_engine.read_commit_builder",
+                              seeds=[ctx.seed * 1000003 + 700000 + i for i in range(32 if ctx.tier == "quick" else 600)])
+    rc_cov = dict(ctx.coverage)
     nwrap = 3000 if ctx.tier == "quick" else 60000
     ncases, nnormal = run_wrapping(ctx, nwrap)
     reps = 2 if ctx.tier == "quick" else 60
@@ -344,8 +350,10 @@ def run(ctx):
         for sig, what in rr["fails"]:
             ctx.report(sig, what, {"kind": "e2e", "args": list(a)})
     ctx.coverage.update({
-        "evaluations": len(res) + ncases + hist_cov.get("evaluations", 0),
-        "distinct_nontrivial": len(distinct) + nnormal + hist_cov.get("distinct_nontrivial", 0),
+        "evaluations": len(res) + ncases + hist_cov.get("evaluations", 0) + rc_cov.get("evaluations", 0),
+        "distinct_nontrivial": len(distinct) + nnormal + hist_cov.get("distinct_nontrivial", 0) + rc_cov.get("distinct_nontrivial", 0),
+        "read_then_commit_part": {k: rc_cov.get(k) for k in (
+            "evaluations", "distinct_nontrivial", "histories", "correspondence_divergences", "ops", "outcomes")},
         "rule": RULE + HIST_RULE, "history_part": {k: hist_cov.get(k) for k in (
             "evaluations", "distinct_nontrivial", "histories", "correspondence_divergences", "ops", "outcomes")},
         "samples": [{"e2e_case": list(args[0]), "result": {k: v for k, v in res[0].items() if k != "fails"}}],
